@@ -86,7 +86,10 @@ fn plans_for(tier: Tier, base: &Outcome) -> Vec<Plan> {
 }
 
 fn run_driver(report: &mut Report, known: &KnownFindings, tier: Tier, driver: &str, workload: u8, execute: fn(&Plan) -> Outcome, pool: &rayon::ThreadPool) -> bool {
-    let base = execute(&Plan { workload, ..Default::default() });
+    let base = match guarded(|| execute(&Plan { workload, ..Default::default() })) {
+        Ok(o) => o,
+        Err(message) => { let mut o = Outcome { plan: Plan { workload, ..Default::default() }, ..Default::default() }; o.problem(format!("C11:panic on the calling thread {}", message.split(": ").next().unwrap_or("?")), message); o }
+    };
     if !base.machinery.is_empty() { for m in &base.machinery { report.machinery_errors.push(format!("{} baseline: {}", driver, m)); } return false; }
     if !base.problems.is_empty() {
         // the baseline itself misbehaves: report it and still enumerate
@@ -103,7 +106,11 @@ fn run_driver(report: &mut Report, known: &KnownFindings, tier: Tier, driver: &s
     let outcomes: Vec<Outcome> = pool.install(|| plans.par_iter().map(|plan| {
         if timeouts.load(std::sync::atomic::Ordering::Relaxed) >= 8 { return Outcome { plan: plan.clone(), machinery: vec!["skipped after repeated harness timeouts".to_string()], ..Default::default() }; }
         if failing.load(std::sync::atomic::Ordering::Relaxed) >= 32 { skipped.fetch_add(1, std::sync::atomic::Ordering::Relaxed); return Outcome { plan: plan.clone(), ..Default::default() }; }
-        let o = execute(plan);
+        // a panic on the calling thread (inside a client handle method) must not take the checker down
+        let o = match guarded(|| execute(plan)) {
+            Ok(o) => o,
+            Err(message) => { let mut o = Outcome { plan: plan.clone(), ..Default::default() }; o.problem(format!("C11:panic on the calling thread {}", message.split(": ").next().unwrap_or("?")), message); o }
+        };
         if o.machinery.iter().any(|m| m.contains("did not finish")) { timeouts.fetch_add(1, std::sync::atomic::Ordering::Relaxed); }
         if !o.problems.is_empty() { failing.fetch_add(1, std::sync::atomic::Ordering::Relaxed); }
         o
@@ -132,7 +139,12 @@ fn run_driver(report: &mut Report, known: &KnownFindings, tier: Tier, driver: &s
         // a violation is believed only if the same plan fails the same way again (up to three more executions);
         // an anomaly that never reproduces is counted in the evidence and reported on stderr, not raised as an alarm
         let mut reproduced = false;
-        for _ in 0..3 { let again = execute(&o.plan); if again.problems.iter().any(|(s, _)| s == signature) { reproduced = true; break; } }
+        for _ in 0..3 {
+            match guarded(|| execute(&o.plan)) {
+                Ok(again) => { if again.problems.iter().any(|(s, _)| s == signature) { reproduced = true; break; } }
+                Err(_) => { if signature.starts_with("C11:panic") { reproduced = true; break; } }
+            }
+        }
         if !reproduced {
             report.add_count("unreproduced_anomalies", 1);
             eprintln!("NOTE: {} plan {:?} showed '{}' once and not again in three re-executions: not reported", driver, o.plan, signature);
